@@ -904,6 +904,21 @@ def _ctx_condition(ex, c, args, kwargs, node):
     return VOptional(z3.Not(has_condition(c.t)), k, TCtx)
 
 
+# identifier lists (the signature): `ctx.num` is this node's identifier token, `ctx.myid()` the (optional) rest of the list;
+# visit(that child) denotes IdsOf(child), the identifiers of the subtree in the order written
+child["num"] = z3.Function("child_num", Ctx, Ctx)
+child["myid"] = z3.Function("child_myid", Ctx, Ctx)
+has_myid = z3.Function("has_myid", Ctx, L.Bool)
+IdsOf = z3.Function("IdsOf", Ctx, L.list_theory(StrSort, "Str").sort)
+
+
+@meth("Ctx", "myid", tb="TB-antlr")
+def _ctx_myid(ex, c, args, kwargs, node):
+    k = VCtx(child["myid"](c.t))
+    k.kind = "myid"
+    return VOptional(z3.Not(has_myid(c.t)), k, TCtx)
+
+
 @meth("Ctx", "getText", tb="TB-antlr")
 def _ctx_gettext(ex, c, args, kwargs, node):
     return VStr(tok_text(c.t))
@@ -919,6 +934,8 @@ def _visit(ex, v, args, kwargs, node):
         raise Unsupported("visit of a non-context")
     if getattr(c, "kind", None) == "condition":
         return VList(CondsOf(c.t), TCnd)
+    if getattr(c, "kind", None) == "myid":
+        return VList(IdsOf(c.t), TStr)
     return VForm(sem(c.t))
 
 
